@@ -1354,6 +1354,7 @@ class ParmapperAsync(Iterable):
                 async with contextlib.AsyncExitStack() as stack:
                     for cm in self._async_context.values():
                         await stack.enter_async_context(cm)
+                    ready.set()
                     while True:
                         if to_stop.is_set():
                             break
@@ -1363,12 +1364,23 @@ class ParmapperAsync(Iterable):
 
         loop = asyncio.new_event_loop()
         to_stop = threading.Event()
+        ready = threading.Event()
         worker = Thread(
             target=_do_async,
             args=(to_stop, loop),
             name=self._name,
         )
         worker.start()
+        while not ready.wait(0.01):
+            if not worker.is_alive():
+                # The helper ended before its loop was serving, e.g. an item of
+                # `async_context` failed to enter. `join` raises that error.
+                # Without this check the consumer would wait forever for coroutines
+                # submitted to a loop that is not running.
+                worker.join()
+                raise RuntimeError(
+                    f"the helper thread of '{self._name}' ended before it was ready"
+                )
 
         def func(x, **kwargs):
             return asyncio.run_coroutine_threadsafe(
